@@ -729,6 +729,10 @@ pub fn run(_kind: &str, ctx: &Ctx, out: &mut dyn Write) {
             reset(&mut case.ddnnf, &keys);
             let mut c1 = case.ddnnf.clone();
             let mut c2 = case.ddnnf.clone();
+            // one clone rebuilds itself (as a worker does at the end of an edit it serves; here the
+            // model stays the same): the cursor reset that goes with it must not detach that clone
+            // from the cursor it shares with the others
+            let _ = guarded(|| c1.rebuild());
             writeln!(s, "run 0 workers 3 clones sched").unwrap();
             for (i, r) in reqs.iter().enumerate() {
                 let mut a = r.lits.clone();
